@@ -141,6 +141,15 @@ CORPUS_CASES = [
         {"name": "u", "type": ["null", "geo.Circle", "geo.Ring"]}, {"name": "l", "type": {"type": "array", "items": ["Ring", "Circle"]}}]},
      {"c": {"x": 1, "r": 2}, "g": {"x": 1, "r": 2, "inner": 3}, "u": {"x": 5, "r": 6, "inner": 7}, "l": [{"x": 5, "r": 6, "inner": 7}, {"x": 1, "r": 1}]}),
 ] + [
+    # branches whose Python types overlap: the FIRST conforming non-record branch is taken, and only a conforming one
+    ([{"type": "array", "items": "string"}, "string"], "ab"), (["null", {"type": "array", "items": ["string", "int"]}, "string"], "xy"),
+    ([{"type": "array", "items": {"type": "enum", "name": "OneLetter", "symbols": ["a", "b"]}}, "string"], "ab"),
+    ([{"type": "array", "items": "int"}, "bytes"], b"ab"), ([{"type": "map", "values": "string"}, "string"], "k"),
+    ([{"type": "fixed", "name": "Fx2", "size": 2}, {"type": "fixed", "name": "Fx3", "size": 3}, "bytes"], b"abc"),
+    ([{"type": "fixed", "name": "Fx2", "size": 2}, {"type": "fixed", "name": "Fx3", "size": 3}, "bytes"], b"abcd"),
+    ([{"type": "fixed", "name": "Fx2", "size": 2}, "bytes"], b"a"), ([{"type": "enum", "name": "En1", "symbols": ["x", "y"]}, "string"], "z"),
+    (["float", {"type": "double", "logicalType": "zzz"}], 0.1), (["float", {"type": "double"}], 3), (["int", {"type": "long"}], 1 << 40),
+] + [
     # hints name branches by FULL name: a namespaced type listed before a null-namespace type of the same short name
     ([{"type": "record", "name": "a.Event", "fields": [{"name": "v", "type": "int"}]}, {"type": "record", "name": "Event", "fields": [{"name": "v", "type": "int"}]}], d)
     for d in [("Event", {"v": 3}), ("a.Event", {"v": 3}), {"-type": "Event", "v": 4}, {"-type": "a.Event", "v": 4}, {"v": 5}]
